@@ -27,6 +27,40 @@ const PAIR_CAP: usize = 200_000;
 
 // ------------------------------------------------------------ pattern shapes
 
+/// Fan-outs around every limit of the state encodings: chunks of 4
+/// transitions, the sparse/dense switch at 127/128, the kind tags 254/255 and
+/// the full 256.
+pub const FANOUT: [usize; 22] = [1, 2, 3, 4, 5, 6, 7, 8, 9, 125, 126, 127, 128, 129, 130, 131, 252, 253, 254, 255, 256, 64];
+
+/// One trie node with `n` children below a short prefix (sometimes itself a
+/// match state, sometimes with a suffix pattern so that failure links matter).
+pub fn wide_node(rng: &mut Rng, n: usize) -> Vec<Vec<u8>> {
+    let mut pats: Vec<Vec<u8>> = vec![];
+    let plen = if rng.chance(1, 6) { 0 } else { rng.range(1, 3) };
+    let prefix = gen::rand_string(rng, b"abAB\x00\xff", plen);
+    let first = rng.below(256);
+    let step = if rng.chance(1, 2) { 1 } else { 3 };
+    for k in 0..n {
+        let b = ((first + k * step) % 256) as u8;
+        let mut p = prefix.clone();
+        p.push(b);
+        if rng.chance(1, 5) {
+            p.push(*rng.pick(b"xyz"));
+        }
+        pats.push(p);
+    }
+    if rng.chance(2, 3) {
+        pats.push(prefix.clone()); // the wide node is itself a match state
+    }
+    if rng.chance(1, 4) {
+        // a suffix of the prefix, so failure links matter
+        if prefix.len() > 1 {
+            pats.push(prefix[1..].to_vec());
+        }
+    }
+    pats
+}
+
 /// Pattern lists that stress the representations: wide nodes around the
 /// sparse/dense switch, transition counts of every residue mod 4, single
 /// children on match states, the empty pattern, many patterns.
@@ -38,35 +72,9 @@ pub fn shaped_patterns(rng: &mut Rng, which: usize) -> Vec<Vec<u8>> {
             // (by the global list index) over the values around every limit of
             // the state encodings: chunks of 4 transitions, the sparse/dense
             // switch at 127/128, the kind tags 254/255 and the full 256.
-            const FANOUT: [usize; 22] =
-                [1, 2, 3, 4, 5, 6, 7, 8, 9, 125, 126, 127, 128, 129, 130, 131, 252, 253, 254, 255, 256, 64];
-            // every second wide-node list takes its width from that table, the
-            // others any width 1..=256 (lookups inside a sparse state may treat
-            // widths differently anywhere in between)
             let idx = which / 10 * 3 + which % 10;
             let n = if idx % 2 == 0 { FANOUT[(idx / 2) % FANOUT.len()] } else { 1 + rng.below(256) };
-            let plen = if rng.chance(1, 6) { 0 } else { rng.range(1, 3) };
-            let prefix = gen::rand_string(rng, b"abAB\x00\xff", plen);
-            let first = rng.below(256);
-            let step = if rng.chance(1, 2) { 1 } else { 3 };
-            for k in 0..n {
-                let b = ((first + k * step) % 256) as u8;
-                let mut p = prefix.clone();
-                p.push(b);
-                if rng.chance(1, 5) {
-                    p.push(*rng.pick(b"xyz"));
-                }
-                pats.push(p);
-            }
-            if rng.chance(2, 3) {
-                pats.push(prefix.clone()); // the wide node is itself a match state
-            }
-            if rng.chance(1, 4) {
-                // a suffix of the prefix, so failure links matter
-                if prefix.len() > 1 {
-                    pats.push(prefix[1..].to_vec());
-                }
-            }
+            pats = wide_node(rng, n);
         }
         3 => {
             // chain: a, ab, abc ... (match state with exactly one child)
